@@ -28,7 +28,10 @@ func init() {
 		Stages: []Stage{
 			st("msgformat", "pkg/registrars/dns-registrar/msgformat", "^TestVerifC15"),
 			st("dns", "pkg/registrars/dns-registrar/dns", "^TestVerifC15"),
-			st("transports", "pkg/transports", "^TestVerifC15"),
+			st("transports", "pkg/transports", "^TestVerifC15(Obfuscators|Anypb)$"),
+			// own process: this test replaces crypto/rand.Reader, nothing else may draw from it meanwhile
+			{Name: "transports-scripted", Pkg: "./pkg/transports", Run: "^TestVerifC15ScriptedRandomness$", Drivers: []string{"transports"},
+				TimeoutQ: 10 * time.Minute, TimeoutT: 40 * time.Minute},
 			st("encryption", "pkg/registrars/dns-registrar/encryption", "^TestVerifC15"),
 			st("requester", "pkg/registrars/dns-registrar/requester", "^TestVerifC15"),
 			st("responder", "pkg/registrars/dns-registrar/responder", "^TestVerifC15"),
@@ -50,14 +53,15 @@ func c15Post(rc *RunCtx) {
 		return
 	}
 	floors := map[string]int64{
-		"msgformat.accepted_roundtrips":   2000,
-		"dns.accepted_roundtrips":         2000,
-		"obfuscators.accepted_roundtrips": 1000,
-		"anypb.accepted_roundtrips":       300,
-		"encryption.accepted_roundtrips":  300,
-		"requester.accepted_roundtrips":   200,
-		"exchange.accepted_roundtrips":    150,
-		"concurrent.accepted_roundtrips":  300,
+		"msgformat.accepted_roundtrips":    2000,
+		"dns.accepted_roundtrips":          2000,
+		"obfuscators.accepted_roundtrips":  1000,
+		"anypb.accepted_roundtrips":        300,
+		"encryption.accepted_roundtrips":   300,
+		"requester.accepted_roundtrips":    200,
+		"exchange.accepted_roundtrips":     150,
+		"concurrent.accepted_roundtrips":   300,
+		"namecapacity.accepted_roundtrips": 800,
 	}
 	for k, min := range floors {
 		if got := rc.Counts[k]; got < min {
